@@ -384,7 +384,7 @@ func checkG2(prop, tier string) int {
 			"max_schedule_points":           tot.MaxPoints,
 			"deviation_bound_completed":     boundDone,
 			"deviation_bound_target":        maxBound,
-			"programs":                      names,
+			"program_names":                 names,
 			"outcomes":                      tot.Outcomes,
 			"infrastructure_errors":         infra,
 		}})
